@@ -432,8 +432,13 @@ func msgScenario(c *Ctx, mm msgMatcher, mc msgCase) *Scenario {
 			return SV{K: "str", Desc: "ip(" + args[0].Desc + ")"}, true
 		case callee == "(*encoding/base64.Encoding).EncodeToString":
 			return SV{K: "str", Desc: "base64"}, true
-		case strings.HasSuffix(callee, "Replacer).ReplaceAll") && len(args) == 3:
-			return args[1], true // no placeholders in the configured values of the tables
+		case (strings.HasSuffix(callee, "Replacer).ReplaceAll") || strings.HasSuffix(callee, "Replacer).ReplaceKnown")) && len(args) == 3:
+			// the replacer as caddy implements it: what is in braces and not known to it is removed by ReplaceAll
+			// and kept by ReplaceKnown (the tables use no known placeholders)
+			if args[1].K == "str" && args[1].Known && args[2].K == "str" && args[2].Known {
+				return symStr(caddyReplace(args[1].S, args[2].S, strings.HasSuffix(callee, ".ReplaceAll"), nil)), true
+			}
+			return args[1], true
 		case strings.Contains(callee, "context.Context.Value"), strings.HasSuffix(callee, "Replacer).Set"):
 			return symRef("repl", false), true
 		case (callee == "strings.HasPrefix") && len(args) == 2:
@@ -1052,6 +1057,15 @@ var msgMatchers = []msgMatcher{
 		source: "only the first count bytes are looked at",
 	},
 	{
+		fn: "modules/l4regexp.(*MatchRegexp).Match", cfgName: `regexp ^\d{3}x{2,3}$ count=6`, heap: regexpCfg(`^\d{3}x{2,3}$`, 6), cfg: regexpJSON(`^\d{3}x{2,3}$`, 6),
+		cases: []msgCase{
+			{"three digits and three x", []byte("123xxx"), "yes"},
+			{"one digit and one x, padded", []byte("1x\n\n\n\n"), "no"},
+			{"two digits", []byte("12xxxx"), "no"},
+		},
+		source: "counted repetitions are part of the expression (to the replacer that resolves placeholders in the pattern, {3} and {2,3} are unknown placeholders)",
+	},
+	{
 		fn: "modules/l4regexp.(*MatchRegexp).Match", cfgName: "regexp . count=1", heap: regexpCfg(".", 1), cfg: regexpJSON(".", 1),
 		cases: []msgCase{
 			{"one byte", []byte("a"), "yes"},
@@ -1304,6 +1318,10 @@ var msgMatchers = []msgMatcher{
 			{"startup 3.0, nothing after the version", pgMsg(3<<16, nil), "no"},
 			{"protocol 2.0", pgMsg(2<<16, []byte("user\x00alice\x00\x00")), "error"},
 			{"SSLRequest code minus one", pgMsg(80877102, nil), "no"},
+			{"SSLRequest code with declared length 7", []byte{0, 0, 0, 7, 0x04, 0xd2, 0x16, 0x2f}, "no"},
+			{"SSLRequest code with declared length 4", []byte{0, 0, 0, 4, 0x04, 0xd2, 0x16, 0x2f}, "no"},
+			{"SSLRequest code with declared length 0", []byte{0, 0, 0, 0, 0x04, 0xd2, 0x16, 0x2f}, "no"},
+			{"SSLRequest code with declared length 2^32-1", []byte{0xff, 0xff, 0xff, 0xff, 0x04, 0xd2, 0x16, 0x2f}, "no"},
 			{"declared length 7", []byte{0, 0, 0, 7, 0, 3, 0, 0}, "no"},
 			{"declared length 0", []byte{0, 0, 0, 0, 0, 3, 0, 0}, "no"},
 			{"declared length above the matching limit", []byte{0, 1, 0, 0, 0, 3, 0, 0}, "no"},
@@ -1680,4 +1698,76 @@ func provisionEnd(key string, paths []Path) map[string]SV {
 		}
 	}
 	return st
+}
+
+// c06Prefixes: "on a proper prefix of a message that matches, the matcher asks for more data - it never says no".
+// For every message of the verdict tables that the reference calls a match, the matcher is evaluated on proper
+// prefixes of it, cut at the places where parsers go wrong: the first bytes, the last bytes, and one byte before, at
+// and after every multiple of 255/256 and of the matching chunk sizes. The answer must be need-more or already a
+// match (a matcher may need less than the whole message); a definite "no" or an error on a prefix means that the
+// message is rejected when it arrives in fragments although it matches when it arrives whole.
+func c06Prefixes(c *Ctx, r *Report, rule string) {
+	r.rule(rule, "every message of the verdict tables that matches, cut to proper prefixes (first bytes, last bytes, around every multiple of 255 and 256 and around half of it): the matcher answers need-more or match, never no and never an error - a message that matches when delivered whole is not rejected when delivered in fragments", 60)
+	for _, mm := range msgMatchers {
+		fn := c.Fn(mm.fn)
+		if fn == nil {
+			continue
+		}
+		for _, mc := range mm.cases {
+			if mc.want != "yes" || len(mc.msg) < 2 || mm.local == "udp" || strings.Contains(mm.fn, "l4wireguard") {
+				continue // (a datagram is not delivered in fragments; WireGuard has no stream form: the matcher decides on the datagram's length)
+			}
+			cuts := map[int]bool{}
+			add := func(k int) {
+				if k >= 1 && k < len(mc.msg) {
+					cuts[k] = true
+				}
+			}
+			for _, k := range []int{1, 2, 3, 4, 5, len(mc.msg) / 2, len(mc.msg) - 1, len(mc.msg) - 2, len(mc.msg) - 3, len(mc.msg) - 5} {
+				add(k)
+			}
+			for m := 255; m < len(mc.msg)+2; m += 255 {
+				for d := -1; d <= 3; d++ {
+					add(m + d)
+				}
+			}
+			var ks []int
+			for k := range cuts {
+				ks = append(ks, k)
+			}
+			sort.Ints(ks)
+			var problems []string
+			for _, k := range ks {
+				pc := mc
+				pc.msg = mc.msg[:k]
+				pc.name = fmt.Sprintf("%s, first %d of %d bytes", mc.name, k, len(mc.msg))
+				sc := msgScenario(c, mm, pc)
+				paths, err := evalPaths(fn, sc)
+				if err != nil || len(paths) == 0 {
+					problems = append(problems, fmt.Sprintf("first %d bytes: undecided (%v)", k, err))
+					continue
+				}
+				for _, p := range paths {
+					switch {
+					case p.Outcome != "return" || len(p.Ret) != 2:
+						problems = append(problems, fmt.Sprintf("first %d bytes: no normal return (%s)", k, p.Outcome))
+					case !(p.Ret[1].Known && p.Ret[1].Nil):
+						if !strings.Contains(p.Ret[1].Desc, "ErrConsumedAllPrefetchedBytes") {
+							problems = append(problems, fmt.Sprintf("first %d bytes: error %s", k, p.Ret[1].Desc))
+						}
+					case p.Ret[0].K == "bool" && p.Ret[0].Known && !p.Ret[0].B:
+						problems = append(problems, fmt.Sprintf("first %d bytes: no", k))
+					case !(p.Ret[0].K == "bool" && p.Ret[0].Known):
+						problems = append(problems, fmt.Sprintf("first %d bytes: undetermined verdict", k))
+					}
+				}
+			}
+			problems = dedup(problems)
+			if len(problems) > 5 {
+				problems = append(problems[:5], fmt.Sprintf("... %d more", len(problems)-5))
+			}
+			r.check(len(problems) == 0, rule, mm.fn, mm.cfgName+": "+mc.name, c.pos(fn.Pos()), fmt.Sprintf("%d proper prefixes of the %d-byte message answer need-more or match", len(ks), len(mc.msg)),
+				fmt.Sprintf("on proper prefixes of a message that matches (%q) the matcher answers: %s - delivered in fragments the message is rejected", abbreviate(mc.msg), strings.Join(problems, "; ")))
+		}
+	}
 }
